@@ -52,6 +52,8 @@ func (s tstmt) sql(ver int) string {
 		return fmt.Sprintf("UPDATE %s SET k = %d, v = %d WHERE k = %d;", txnTable, s.B, ver, s.A)
 	case "rupd":
 		return fmt.Sprintf("UPDATE %s SET v = %d, p = '%s' WHERE k = %d;", txnTable, ver, hugePay, s.A)
+	case "supd": // the same update answered by a sequential scan (OR): the scan looks ahead over rows of other transactions
+		return fmt.Sprintf("UPDATE %s SET v = %d WHERE k = %d OR k = %d;", txnTable, ver, s.A, s.A)
 	}
 	panic("bad stmt")
 }
@@ -232,7 +234,7 @@ func alphabet(ti int, relocating bool) []tstmt {
 	fresh := 10 + ti*10
 	a := []tstmt{
 		{"pread", 1, 0}, {"pread", 2, 0}, {"rread", 1, 2}, {"rread", 2, 9}, {"sread", 0, 0},
-		{"ins", fresh, 0}, {"del", 1, 0}, {"del", 2, 0}, {"upd", 1, 0}, {"upd", 2, 0}, {"kupd", 2, 5 + ti}, {"kupd", 3, 8 + ti}, // fresh target keys: the model keeps keys unique
+		{"ins", fresh, 0}, {"del", 1, 0}, {"del", 2, 0}, {"upd", 1, 0}, {"upd", 2, 0}, {"supd", 1, 0}, {"supd", 3, 0}, {"kupd", 2, 5 + ti}, {"kupd", 3, 8 + ti}, // fresh target keys: the model keeps keys unique
 	}
 	if relocating {
 		a = append(a, tstmt{"rupd", 1, 0}, tstmt{"rupd", 2, 0})
